@@ -216,6 +216,12 @@ def catalogue(rng):
         ops.Xgate(q[0].par * 1.5 - q[1].par) | q[2]
         ops.Zgate(sf.math.sqrt(2) * q[1].par) | q[2]
     add("measured-parameter-expression", 3, mpe)
+    def mp2(q, prog):
+        ops.MeasureHomodyne(0.0, select=0.7) | q[11]
+        ops.MeasureHomodyne(0.0, select=-0.3) | q[1]
+        ops.Xgate(q[11].par) | q[0]
+        ops.Zgate(q[1].par * 2) | q[10]
+    add("measured-parameter-two-digit-mode", 12, mp2)
     # a multi-command circuit on permuted modes
     def multi(q, prog, dag=False, ff=False):
         ops.Squeezed(0.3) | q[2]
@@ -255,8 +261,9 @@ KNOWN = {
     ("code", "code-dagger", "*"): "F50", ("code", "code-select", "*"): "F50", ("code", "code-dark_counts", "*"): "F50",
     **{("code", "code-raises", l): "F50" for l in ("Ket", "DensityMatrix", "Interferometer", "PassiveChannel", "GraphEmbed", "BipartiteGraphEmbed",
                                                   "GaussianTransform", "Gaussian", "GKP", "Del", "New", "free-parameters", "free-parameter-expression(a**2)",
-                                                  "free-parameter-function", "measured-parameter", "measured-parameter-expression",
+                                                  "free-parameter-function", "measured-parameter", "measured-parameter-expression", "measured-parameter-two-digit-mode",
                                                   "multi-command-with-feed-forward")},
+    ("blackbird", "tdm-save-raises", "tdm-single-band"): "F43a", ("blackbird", "tdm-save-raises", "tdm-two-bands-dagger-select"): "F43a",
     ("blackbird", "tdm-N", "tdm-two-bands-dagger-select"): "F48", ("xir", "tdm-load-raises", "tdm-two-bands-dagger-select"): "F48",
 }
 
